@@ -80,7 +80,7 @@ def main(payload):
 
 
 UNITS = [
-    flow.Unit('eos-library', groups=['eos'], props=['props/C16_eos.v'], custom_corr=eos_corr, oracle=EO.oracle,
+    flow.Unit('eos-library', groups=['eos'], props=['props/C16_eos.v', 'props/C16_steinberg.v'], custom_corr=eos_corr, oracle=EO.oracle,
               findings=[dict(id='cs-de-drho', refuted='props/C16_eos_refuted.v', pending=None,
                              what='carnahan_starling_eos.de_drho (called with (rho, P) by every residual function) is not the derivative of e (gamma=5/3,b=1 model witness rho=1/2,P=2)',
                              replay=replay_cs)]),
